@@ -399,8 +399,6 @@ def strace_pass(rec, n):
 def run_shard(shard, rec):
     if shard.get("kind") == "strace":
         strace_pass(rec, shard["n"])
-        for k in REQUIRED_REACH:
-            rec.count(k)
         return
     if shard.get("kind") == "e10":
         from vlib import e10
